@@ -156,3 +156,5 @@ DEPS = {
 
 def apply(ctx, pid):
     require(ctx, pid, DEPS.get(pid, []))
+    from . import traits
+    traits.require_structural(ctx, pid)
